@@ -22,3 +22,42 @@ fn c17_check_outbound_exact() {
     kani::cover!(limit == Some(size));
     kani::cover!(limit.is_some() && limit.unwrap() < usize::MAX && size == limit.unwrap() + 1);
 }
+
+//@ prop: C17
+//@ tier: quick
+//@ clause: the limit the outbound guard enforces is exactly the assumed peer limit the application configured: the inbound setters (and the order in which setters are called) never raise, lower or clear it, and it defaults to the default frame size
+//@ funcs: WebSocketLimits::default, ::unlimited, ::with_max_incoming_frame_size, ::with_max_incoming_message_size, ::with_assumed_peer_frame_limit, ::check_outbound
+//@ symbolic: the three configured values (full width, present or absent), the base (default / unlimited), the position of the assumed-limit setter among the inbound setters, the checked size
+//@ bounds: one call of each setter
+//@ oracle: check_outbound(size) refuses iff size exceeds the value last passed to with_assumed_peer_frame_limit (the base's value if it was never called)
+#[kani::proof]
+fn c17_assumed_limit_independent_of_inbound_setters() {
+    let opt = |present: bool, v: usize| if present { Some(v) } else { None };
+    let frame = opt(kani::any(), kani::any());
+    let message = opt(kani::any(), kani::any());
+    let assumed = opt(kani::any(), kani::any());
+    let from_default: bool = kani::any();
+    let base = if from_default { WebSocketLimits::default() } else { WebSocketLimits::unlimited() };
+    let position: u8 = kani::any();
+    let set_assumed: bool = kani::any();
+    let l = match (set_assumed, position % 3) {
+        (false, _) => base.with_max_incoming_frame_size(frame).with_max_incoming_message_size(message),
+        (true, 0) => base.with_assumed_peer_frame_limit(assumed).with_max_incoming_frame_size(frame).with_max_incoming_message_size(message),
+        (true, 1) => base.with_max_incoming_frame_size(frame).with_assumed_peer_frame_limit(assumed).with_max_incoming_message_size(message),
+        (true, _) => base.with_max_incoming_frame_size(frame).with_max_incoming_message_size(message).with_assumed_peer_frame_limit(assumed),
+    };
+    let effective = if set_assumed {
+        assumed
+    } else if from_default {
+        Some(DEFAULT_MAX_FRAME_SIZE)
+    } else {
+        None
+    };
+    assert!(l.assumed_peer_frame_limit == effective, "an inbound setter changed the assumed peer limit");
+    assert!(l.max_incoming_frame_size == frame && l.max_incoming_message_size == message);
+    let size: usize = kani::any();
+    let r = l.check_outbound(size);
+    assert!(r.is_err() == effective.map(|x| size > x).unwrap_or(false), "the guard enforces a different limit than the configured one");
+    kani::cover!(set_assumed && position % 3 == 0 && frame.is_some() && assumed.is_some() && frame.unwrap() > assumed.unwrap() && r.is_err());
+    std::mem::forget(r);
+}
